@@ -245,7 +245,11 @@ class Interp:
         if k == 'delay':
             return time + num(e[1])
         if k == 'rcmp':
-            return self._cmp(self.resources[e[1]], e[2], e[3])
+            rhs = e[3]
+            if len(e) > 4 and e[4] == 'obj':
+                # compared with a levels object of the supply's own type instead of a dict
+                rhs = type(self.resources[e[1]].levels)(**rhs)
+            return self._cmp(self.resources[e[1]], e[2], rhs)
         if k == 'scope_done':
             return self.scopes[e[1]]
         raise InvalidCase('cond %r' % (e,))
